@@ -72,6 +72,7 @@ func (c12) Probes() []string {
 }
 
 func (c12) Gen(r *R, tier string) any {
+	observeUnknownAPI = true
 	p := &C12Plan{Perm: r.Uint64()}
 	n := r.Range(1, 3)
 	for i := 0; i < n; i++ {
@@ -212,6 +213,8 @@ type crashWriter struct {
 
 const crashWriterPanic = "ResponseWriter crashed (injected)"
 
+func (*crashWriter) isHarnessWriter() {}
+
 func (w *crashWriter) tick() {
 	w.n++
 	if w.at > 0 && w.n == w.at {
@@ -224,6 +227,7 @@ func (w *crashWriter) Write(b []byte) (int, error) { w.tick(); return w.recWrite
 
 func (h mutHandler) ServeHTTP(w http.ResponseWriter, r *http.Request) {
 	*h.invoked++
+	noteWriter(w)
 	if h.quiet != nil && *h.quiet {
 		w.Header().Add("Vary", "Accept-Encoding")
 		w.Header().Set("X-Handler", "quiet")
@@ -286,6 +290,7 @@ func permOf(seed uint64, salt uint64, n int) []int {
 }
 
 func (c12) Exec(plan any, c *Ctx) *Violation {
+	observeUnknownAPI = true
 	p := plan.(*C12Plan)
 	mws := make([]*c12mw, len(p.MWs))
 	// ---- build
@@ -307,10 +312,10 @@ func (c12) Exec(plan any, c *Ctx) *Violation {
 		pan := catch(func() {
 			memV = callerMemoryIntact(x.passed, "build", func() {
 				if spec.ViaReconf {
-					x.m = new(cors.Middleware)
+					x.m = zeroMW()
 					err = x.m.Reconfigure(x.passed)
 				} else {
-					x.m, err = cors.NewMiddleware(*x.passed) // copies the struct, shares the slices
+					x.m, err = mkMW(*x.passed) // copies the struct, shares the slices
 				}
 			})
 		})
@@ -378,7 +383,7 @@ func (c12) Exec(plan any, c *Ctx) *Violation {
 		rf := &ref{}
 		refs[[3]int{j, dbg, tw}] = rf
 		target := tweakCfg(p.Cfgs[j], tw)
-		fresh, ferr := cors.NewMiddleware(target.Config())
+		fresh, ferr := mkMW(target.Config())
 		if ferr != nil {
 			continue
 		}
